@@ -386,6 +386,16 @@ impl Neg for Expression {
     }
 }
 
+/// Replace negative zeros by positive ones.
+///
+/// Expressions do not distinguish `+0.0` from `-0.0` (they compare and hash as equal, and interning
+/// may return either for the other), so the branch that `sqrt` and `^` pick on the negative real
+/// axis must not depend on the sign of a zero: operands always approach the axis from above.
+#[inline]
+fn without_negative_zeros(value: Complex64) -> Complex64 {
+    Complex64::new(value.re + 0.0, value.im + 0.0)
+}
+
 /// Compute the result of an infix expression where both operands are complex.
 #[inline]
 pub(crate) fn calculate_infix(
@@ -394,6 +404,10 @@ pub(crate) fn calculate_infix(
     right: Complex64,
 ) -> Complex64 {
     use InfixOperator::*;
+    let (left, right) = (
+        without_negative_zeros(left),
+        without_negative_zeros(right),
+    );
     match operator {
         Caret => left.powc(right),
         Plus => left + right,
@@ -407,6 +421,7 @@ pub(crate) fn calculate_infix(
 #[inline]
 pub(crate) fn calculate_function(function: ExpressionFunction, argument: Complex64) -> Complex64 {
     use ExpressionFunction::*;
+    let argument = without_negative_zeros(argument);
     match function {
         Sine => argument.sin(),
         Cis => argument.cos() + imag!(1f64) * argument.sin(),
